@@ -19,8 +19,6 @@ pub mod co_io;
 pub mod net;
 pub mod wait_io;
 
-#[cfg(feature = "io_timeout")]
-use std::cell::RefCell;
 use std::ops::Deref;
 use std::os::fd::{AsFd, BorrowedFd};
 use std::os::unix::io::{AsRawFd, RawFd};
@@ -99,8 +97,18 @@ fn timeout_handler(data: TimerData) {
     let event_data = unsafe { &mut *data.event_data };
     #[cfg(may_verif)]
     event_data.io_flag.mark("t.fire", 0, 0);
+    // Is this still the timer of the wait in progress? A taker (selector, `fast_schedule`, canceller) disarms the timer, but it
+    // cannot stop an entry that has already been popped: the wait this timer was armed for may be over and the coroutine may
+    // already sit in the slot again for a LATER wait (the retry after IO_FLAG_TIMEOUT below is one way to get there). Taking it
+    // then would time out the wrong wait and leave that wait's own timer armed and unreferenced (it fires into the next
+    // operation, or into freed event data once the socket is closed). The cell stays locked until the coroutine is taken:
+    // `arm_timer` of a later wait cannot slip in between.
+    let mut cell = event_data.timer.borrow_mut();
+    if cell.is_none() || cell.id != data.id {
+        return;
+    }
     // remove the event timer
-    event_data.timer.borrow_mut().take();
+    cell.take();
 
     // `subscribe` arms the timer before it publishes the coroutine: if the timer fires in between, the `take` below finds
     // nothing and the time-out would be lost (the operation then blocks for ever). Raise the flag first – the same
@@ -113,6 +121,7 @@ fn timeout_handler(data: TimerData) {
         Some(co) => co,
         None => return,
     };
+    drop(cell);
 
     set_co_para(&mut co, io::Error::new(io::ErrorKind::TimedOut, "timeout"));
 
@@ -124,6 +133,52 @@ fn timeout_handler(data: TimerData) {
 #[cfg(feature = "io_timeout")]
 pub struct TimerData {
     event_data: *mut EventData,
+    // which wait on this socket the timer was armed for
+    id: usize,
+}
+
+// the timer handle of the wait in progress and the number of that wait. It is touched by the thread that runs `subscribe`
+// (arm_timer), by whoever takes the coroutine out of the slot (the selector, another worker in `fast_schedule`, a canceller:
+// they disarm the timer) and by the timeout handler on the selector thread: a `RefCell` is not enough (concurrent
+// `borrow_mut` panics with "already borrowed" on a worker thread, which then dies with the coroutine it had just taken).
+// `borrow_mut` keeps its name so that the users read as before; it is a lock now.
+#[cfg(feature = "io_timeout")]
+pub struct TimerSlot {
+    handle: Option<TimerHandle>,
+    id: usize,
+}
+
+#[cfg(feature = "io_timeout")]
+impl Deref for TimerSlot {
+    type Target = Option<TimerHandle>;
+    fn deref(&self) -> &Option<TimerHandle> {
+        &self.handle
+    }
+}
+
+#[cfg(feature = "io_timeout")]
+impl std::ops::DerefMut for TimerSlot {
+    fn deref_mut(&mut self) -> &mut Option<TimerHandle> {
+        &mut self.handle
+    }
+}
+
+#[cfg(feature = "io_timeout")]
+pub struct TimerCell(parking_lot::Mutex<TimerSlot>);
+
+#[cfg(feature = "io_timeout")]
+impl TimerCell {
+    fn new() -> Self {
+        TimerCell(parking_lot::Mutex::new(TimerSlot {
+            handle: None,
+            id: 0,
+        }))
+    }
+
+    #[inline]
+    pub fn borrow_mut(&self) -> parking_lot::MutexGuard<'_, TimerSlot> {
+        self.0.lock()
+    }
 }
 
 #[cfg(feature = "io_timeout")]
@@ -137,7 +192,7 @@ pub struct EventData {
     pub fd: RawFd,
     pub io_flag: AtomicUsize,
     #[cfg(feature = "io_timeout")]
-    pub timer: RefCell<Option<TimerHandle>>,
+    pub timer: TimerCell,
     pub co: AtomicOption<CoroutineImpl>,
 }
 
@@ -150,16 +205,23 @@ impl EventData {
             fd,
             io_flag: AtomicUsize::new(0),
             #[cfg(feature = "io_timeout")]
-            timer: RefCell::new(None),
+            timer: TimerCell::new(),
             co: AtomicOption::none(),
         }
     }
 
+    /// arm the timer of the wait that is being subscribed: `add` puts the entry into the timer list. The cell stays locked
+    /// until the handle is stored, so a timer that fires at once finds it (see `timeout_handler`)
     #[cfg(feature = "io_timeout")]
-    pub fn timer_data(&self) -> TimerData {
-        TimerData {
+    pub fn arm_timer<F: FnOnce(TimerData) -> TimerHandle>(&self, add: F) {
+        let mut cell = self.timer.borrow_mut();
+        cell.id = cell.id.wrapping_add(1);
+        let data = TimerData {
             event_data: self as *const _ as *mut _,
-        }
+            id: cell.id,
+        };
+        let h = add(data);
+        cell.replace(h);
     }
 
     #[inline]
